@@ -507,3 +507,88 @@ class PerlPacks:
 # (a finite, concrete table: compared here, natively, with the real module's table on every run)
 PERL_TABLE_IS_FAITHFUL = (sorted(perl_to_python_packs) == sorted(PERL_PACKS)
                           and all(PYTHON_PACKS.get(perl_to_python_packs[k]) == PERL_PACKS[k] for k in PERL_PACKS))
+
+
+# ---- reading a per-core word field, reading / writing a word field of a system struct -------------------------------------------------
+
+
+def _mc_read_rec7(E, obj, args, kwargs, st, node):
+    s = st.copy()
+    s.trace = _ListV7(s.trace.items + (("read",) + tuple(args),))
+    return [(s, st.env["g_data"], None)]
+
+
+def _mk_struct_lookup(fmt):
+    def handler(E, obj, args, kwargs, st, node):
+        s = st.copy()
+        s.trace = _ListV7(s.trace.items + (("struct_field_of",) + tuple(args),))
+        return [(s, (st.env["g_field"], st.env["g_addr"], fmt), None)]
+    return handler
+
+
+def _le32(d):
+    return select(d, 0) + 256 * select(d, 1) + 65536 * select(d, 2) + 16777216 * select(d, 3)
+
+
+@contract("rig/machine_control/machine_controller.py::MachineController.read_vcpu_struct_field", variant="word")
+class ReadVcpuField_word:
+    """a scalar per-core word field: exactly its 4 bytes are read at the field's address on the field's chip, through the
+    monitor, and the value returned is their little-endian reading"""
+    properties = ("C07", "C09")
+    params = dict(self=_TRec7("MachineController"), field_name=TInt(), x=TInt(0, 255), y=TInt(0, 255), p=TInt(0, 17),
+                  g_field=_TRec7("StructField", length=_TConst7(1)), g_addr=TInt(0, 2 ** 32 - 1), g_data=BYTES)
+    externals = {"MachineController._get_vcpu_field_and_address": _mk_field_lookup(b'<I'), "MachineController.read": _mc_read_rec7}
+    options = {"decorators": {"use_contextual_arguments": "identity"}}
+    assumptions = ["_get_vcpu_field_and_address is external here (own contract); read is recorded (own contract MCRead) and returns the ghost bytes"]
+
+    def native(x):
+        raise __import__("pyvc.replay", fromlist=["OutsideHarness"]).OutsideHarness()
+
+    def requires(g_data):
+        return seq_len(g_data) == 4
+
+    def ensures_reads_exactly_the_fields_bytes_and_decodes_them(field_name, x, y, p, g_addr, g_data, result, _trace):
+        return (len(_trace) == 2 and _trace[0] == ("field_of", field_name, x, y, p)
+                and _trace[1] == ("read", g_addr, 4, x, y) and result == _le32(g_data))
+
+
+@contract("rig/machine_control/machine_controller.py::MachineController.read_struct_field", variant="word")
+class ReadStructField_word:
+    """a scalar word field of a system struct: exactly its 4 bytes are read at the field's address on the chip and core named, and
+    the value returned is their little-endian reading"""
+    properties = ("C07", "C14")
+    params = dict(self=_TRec7("MachineController"), struct_name=TInt(), field_name=TInt(), x=TInt(0, 255), y=TInt(0, 255), p=TInt(0, 17),
+                  g_field=_TRec7("StructField", length=_TConst7(1)), g_addr=TInt(0, 2 ** 32 - 1), g_data=BYTES)
+    externals = {"MachineController._get_struct_field_and_address": _mk_struct_lookup(b'<I'), "MachineController.read": _mc_read_rec7}
+    options = {"decorators": {"use_contextual_arguments": "identity"}}
+    assumptions = ["_get_struct_field_and_address (base + offset, format from the struct file) is external here; read is recorded"]
+
+    def native(x):
+        raise __import__("pyvc.replay", fromlist=["OutsideHarness"]).OutsideHarness()
+
+    def requires(g_data):
+        return seq_len(g_data) == 4
+
+    def ensures_reads_exactly_the_fields_bytes_and_decodes_them(struct_name, field_name, x, y, p, g_addr, g_data, result, _trace):
+        return (len(_trace) == 2 and _trace[0] == ("struct_field_of", struct_name, field_name)
+                and _trace[1] == ("read", g_addr, 4, x, y, p) and result == _le32(g_data))
+
+
+@contract("rig/machine_control/machine_controller.py::MachineController.write_struct_field", variant="word")
+class WriteStructField_word:
+    """a scalar word field of a system struct: exactly its little-endian bytes go to the field's address on the chip and core named"""
+    properties = ("C07",)
+    params = dict(self=_TRec7("MachineController"), struct_name=TInt(), field_name=TInt(), values=TInt(0, 2 ** 32 - 1), x=TInt(0, 255), y=TInt(0, 255), p=TInt(0, 17),
+                  g_field=_TRec7("StructField", length=_TConst7(1)), g_addr=TInt(0, 2 ** 32 - 1))
+    externals = {"MachineController._get_struct_field_and_address": _mk_struct_lookup(b'<I'), "MachineController.write": _mc_write7}
+    options = {"decorators": {"use_contextual_arguments": "identity"}}
+    assumptions = ["_get_struct_field_and_address is external here; write is recorded (own contract MCWrite)"]
+
+    def native(x):
+        raise __import__("pyvc.replay", fromlist=["OutsideHarness"]).OutsideHarness()
+
+    def ensures_exactly_the_fields_bytes_are_written_at_the_fields_address(struct_name, field_name, values, x, y, p, g_addr, _trace):
+        d = _trace[1][2]
+        return (len(_trace) == 2 and _trace[0] == ("struct_field_of", struct_name, field_name)
+                and _trace[1][0] == "write" and _trace[1][1] == g_addr and tuple(_trace[1][3:]) == (x, y, p)
+                and seq_len(d) == 4 and all(select(d, i) == (values // (256 ** i)) % 256 for i in range(4)))
